@@ -70,7 +70,7 @@ class ExceptIf(ConclusionSelector):
         required_vars = HashedIterable()
         when_false = not when_true
         if child is self.left:
-            if when_true:
+            if when_true or (when_true is None):
                 required_vars.update(self.right._unique_variables_)
             for conc in self.left._conclusion_.union(self.right._conclusion_):
                 required_vars.update(conc._unique_variables_)
